@@ -564,40 +564,43 @@ func ruleLabelszROISymmetric(r *Run) {
 		r.violation("labelsz.Data.modifyElements", "not found", "-")
 		return
 	}
-	var roiIfs []*ssa.If
-	for _, b := range f.Blocks {
-		if ifi, ok := b.Instrs[len(b.Instrs)-1].(*ssa.If); ok {
-			if c, ok := ifi.Cond.(*ssa.Call); ok && callName(c) == "inROI" {
-				roiIfs = append(roiIfs, ifi)
-			}
-		}
-	}
 	n := 0
-	for _, b := range f.Blocks {
-		for _, in := range b.Instrs {
-			mu, ok := in.(*ssa.MapUpdate)
-			if !ok {
-				continue
-			}
-			if _, isMk := mu.Map.(*ssa.MakeMap); !isMk {
-				continue
-			}
-			if loopOf(mu.Block()) == nil {
-				continue
-			}
-			// only the tally of changes (int32 deltas), built while ranging over the delta
-			if bt, ok := mu.Value.Type().Underlying().(*types.Basic); !ok || bt.Kind() != types.Int32 {
-				continue
-			}
-			n++
-			guarded := false
-			for _, ifi := range roiIfs {
-				if guardedByEdge(ifi, 0, mu) {
-					guarded = true
+	top := f
+	for _, f := range withHelpers(top) { // the tally may be built by a helper (d.countChanges(delta))
+		var roiIfs []*ssa.If
+		for _, b := range f.Blocks {
+			if ifi, ok := b.Instrs[len(b.Instrs)-1].(*ssa.If); ok {
+				if c, ok := ifi.Cond.(*ssa.Call); ok && callName(c) == "inROI" {
+					roiIfs = append(roiIfs, ifi)
 				}
 			}
-			r.check(guarded, fmt.Sprintf("modifyElements:count-change#%d:inside-roi-filter", n), "the change is made on the accepting edge of inROI",
-				"a count is changed for an element without asking the ROI filter (the other direction does ask): removing an element outside the ROI decrements a count that never included it", w.pos(mu.Pos()))
+		}
+		for _, b := range f.Blocks {
+			for _, in := range b.Instrs {
+				mu, ok := in.(*ssa.MapUpdate)
+				if !ok {
+					continue
+				}
+				if _, isMk := mu.Map.(*ssa.MakeMap); !isMk {
+					continue
+				}
+				if loopOf(mu.Block()) == nil {
+					continue
+				}
+				// only the tally of changes (int32 deltas), built while ranging over the delta
+				if bt, ok := mu.Value.Type().Underlying().(*types.Basic); !ok || bt.Kind() != types.Int32 {
+					continue
+				}
+				n++
+				guarded := false
+				for _, ifi := range roiIfs {
+					if guardedByEdge(ifi, 0, mu) {
+						guarded = true
+					}
+				}
+				r.check(guarded, fmt.Sprintf("modifyElements:count-change#%d:inside-roi-filter", n), "the change is made on the accepting edge of inROI",
+					"a count is changed for an element without asking the ROI filter (the other direction does ask): removing an element outside the ROI decrements a count that never included it", w.pos(mu.Pos()))
+			}
 		}
 	}
 	r.check(n >= 4, "labelsz.modifyElements:count-changes", fmt.Sprintf("%d count changes", n), "too few: rule needs review", w.fpos(f))
